@@ -35,6 +35,10 @@ type c02Scenario struct {
 	// UseProxy: all traffic goes through an in-process SOCKS5 proxy (--proxy): a second, separately
 	// configured recording client is then the one in use
 	UseProxy bool `json:"use_proxy"`
+	// StopAtResp > 0: a graceful stop is requested when the k-th response has been received by the
+	// archiver (its body may still be on its way into the WARC). Seeds reported finished while the stop
+	// is in progress are judged by the same in-line monitor.
+	StopAtResp int `json:"stop_at_resp,omitempty"`
 }
 
 func hexToB32(h string) string {
@@ -320,12 +324,18 @@ func c02Child(scPath string) int {
 			checkSeed(seed.GetID(), seq, "at the finish notification of")
 		}
 	}
+	if sc.StopAtResp > 0 {
+		pr.triggers = append(pr.triggers, trigger{"arch.resp", sc.StopAtResp, "stop"})
+	}
 	pr.start(false)
 	verdict := pr.waitQuiescent(6500*time.Millisecond, 12*time.Second, 150*time.Second)
 	rep.Evaluations = 1
 	rep.Extra["verdict"] = verdict
-	if verdict != "quiescent" {
+	if verdict != "quiescent" && !(sc.StopAtResp > 0 && verdict == "stopped") {
 		rep.inconclusive("no-quiescence:" + verdict)
+	}
+	if sc.StopAtResp > 0 && verdict == "stopped" {
+		rep.event("runs_stopped_mid_flight", 1)
 	}
 	done := make(chan struct{})
 	go func() { pr.stop(); close(done) }()
@@ -381,7 +391,7 @@ func c02(r *vc.Run) int {
 			DisableLocalDedupe:  rng.Intn(2) == 0,
 			WARCDiscardStatus:   [][]int{{429}, {429, 404}}[rng.Intn(2)],
 		}
-		scs = append(scs, c02Scenario{Seed: r.Seed, Index: i, Cfg: cfg, NSeeds: 14 + rng.Intn(10), Perturb: i % 3, UseProxy: i%5 == 4})
+		scs = append(scs, c02Scenario{Seed: r.Seed, Index: i, Cfg: cfg, NSeeds: 14 + rng.Intn(10), Perturb: i % 3, UseProxy: i%5 == 4, StopAtResp: map[bool]int{true: 5 + rng.Intn(40), false: 0}[i%4 == 2]})
 	}
 	m := newMerged()
 	parallel(len(scs), 12, func(i int) {
